@@ -191,3 +191,15 @@ Proof.
     apply sortedz_app in Hs. destruct Hs as [_ [[Hy _] _]].
     constructor; [lia |]. apply Forall_forall. intros z Hz. pose proof (Hy z Hz). lia.
 Qed.
+
+(* the model's bound on the binary search (the length of the table) is never what stops it: any
+   larger bound gives the same insertion index *)
+Theorem insertion_index_fuel : forall gens G extra,
+  gens <> [] ->
+  bsearch (length gens) gens G 0 (length gens / 2) (length gens)
+  = bsearch (length gens + extra) gens G 0 (length gens / 2) (length gens).
+Proof.
+  intros gens G extra Hne.
+  assert (Hlen : (0 < length gens)%nat) by (destruct gens; [contradiction | simpl; lia]).
+  apply bsearch_fuel; try lia. rewrite Nat.sub_0_r. reflexivity.
+Qed.
